@@ -13,15 +13,15 @@ const libPrefix = "github.com/go-i2p/common"
 
 // Obs is the rendered result of one accessor call.
 type Obs struct {
-	Name     string // Type.Method (with path for nested values)
-	Result   string // deterministic deep rendering of the results
-	Panicked bool
-	Panic    string
+	Name      string // Type.Method (with path for nested values)
+	Result    string // deterministic deep rendering of the results
+	Panicked  bool
+	Panic     string
 	PanicAddr uintptr // faulting address when the panic was a memory fault (debug.SetPanicOnFault)
-	Stack    string
-	TimeDep  bool // result depends on the wall clock: called, but not compared
-	Verify   bool // method is a verification predicate
-	VerifyOK bool // ... and it reported success
+	Stack     string
+	TimeDep   bool // result depends on the wall clock: called, but not compared
+	Verify    bool // method is a verification predicate
+	VerifyOK  bool // ... and it reported success
 }
 
 // Methods whose result legitimately depends on the wall clock.
